@@ -431,15 +431,6 @@ func genCase(t *rapid.T) *Case {
 		}
 		if p.Mode != mChunkedWriter && rapid.IntRange(0, 3).Draw(t, "delFramingHeader") == 0 {
 			p.DelHeader = rapid.SampledFrom([]string{"Transfer-Encoding", "Content-Length", "transfer-encoding"}).Draw(t, "delHeader")
-			if p.Mode == mStreamKnown && p.DelHeader == "Content-Length" {
-				// the length a handler declares for a stream lives only in that header: a handler that
-				// deletes it again has withdrawn the length (hertz then sends no body); not a way of
-				// producing a response that the statement lists
-				p.DelHeader = "Transfer-Encoding"
-			}
-		}
-		if p.SetCLHeader && p.DelHeader == "Content-Length" {
-			p.DelHeader = "Transfer-Encoding" // (setting a length and deleting it again withdraws it, as for SetBodyStream(r, n) above)
 		}
 		c.Reqs = append(c.Reqs, r)
 		c.Progs = append(c.Progs, p)
